@@ -37,6 +37,7 @@ Gen<Case> makeGraphGen(const Cfg &cfg) {
     int removals = (int)cfgInt(cfg, "removals", 12);
     int bigPct = (int)cfgInt(cfg, "big_pct", 0);       // percentage of cases with 66..100 vertices and a vertex of degree > 64
     int wrapPermille = (int)cfgInt(cfg, "wrap_permille", 0); // cases that repeat a search after 2^8-1 / 2^16-1 other searches
+    int ringPct = (int)cfgInt(cfg, "ring_pct", 0); // percentage of cases with 150..200 vertices each joined to the next 40..60 (thousands of edges)
     bool fresh = cfgInt(cfg, "fresh", 0) != 0; // every case in a forked child, several classes in a generated order
     int forced = (int)cfgInt(cfg, "forced", 0); // percentage of forced (duplicate-creating) adds // percentage of `r` (removeEdge) entries among the edge ops
     return gen::exec([=]() {
@@ -55,6 +56,9 @@ Gen<Case> makeGraphGen(const Cfg &cfg) {
         bool big = bigPct > 0 && *uni(0, 100) < bigPct;
         if (big)
             n = *uni(66, 101);
+        bool ring = !big && ringPct > 0 && *uni(0, 100) < ringPct;
+        if (ring)
+            n = *uni(150, 201);
         c.set("n", S(n));
         if (wrapPermille > 0) {
             int w = *uni(0, 1000);
@@ -93,9 +97,15 @@ Gen<Case> makeGraphGen(const Cfg &cfg) {
             return o;
         });
         double density = *gen::resize(kNominalSize, gen::element(0.15, 0.4, 1.0, 2.5));
-        if (big)
-            density = 0.02;
+        if (big || ring)
+            density = ring ? 0.002 : 0.02;
         c.ops = *gen::scale(density * nn * nn / 40.0, gen::container<std::vector<Op>>(eg));
+        if (ring) {
+            Op o;
+            o.kind = "ring";
+            o.a = {S(*uni(40, 61)), S(*uni(0, xmax))};
+            c.ops.insert(c.ops.begin() + *uni(0, (int)c.ops.size() + 1), o);
+        }
         if (big) {
             // a vertex of degree > 64 (anywhere in the index range, so that it has smaller- and larger-indexed neighbours)
             int hubs = *uni(1, 3);
@@ -191,6 +201,9 @@ Gen<Case> makeTextFileGen(const Cfg &cfg) {
             }
             return t;
         };
+        // one file in twelve has very long comments / label texts / blank runs (buffers of a line reader)
+        bool longFile = *uni(0, 12) == 0;
+        int longLen = longFile ? *gen::resize(kNominalSize, gen::element(300, 1100, 4200, 9000)) : 0;
         std::vector<int> raw = *gen::scale(0.25, gen::container<std::vector<int>>(uni(0, N * N)));
         std::set<std::pair<int, int>> seen;
         std::string text;
@@ -202,7 +215,7 @@ Gen<Case> makeTextFileGen(const Cfg &cfg) {
             if (!seen.insert(key).second)
                 continue;
             if (*uni(0, 4) == 0)
-                text += "#" + anyText(10, false) + "\n";
+                text += "#" + anyText(longFile && *uni(0, 3) == 0 ? longLen : 10, false) + "\n";
             std::string ta = mode == "namefile" ? pool[a % 16] : std::to_string(a);
             std::string tb = mode == "namefile" ? pool[b % 16] : std::to_string(b);
             std::string lead = *uni(0, 3) == 0 ? ws(1, 3) : "";
@@ -214,7 +227,7 @@ Gen<Case> makeTextFileGen(const Cfg &cfg) {
                 line += ws(1, 2) + std::to_string(*uni(0, 1000));
             } else if (label == "string" || (label == "none" && tail == 3)) {
                 if (tail >= 1)
-                    line += ws(1, 3) + anyText(8, true);
+                    line += ws(1, 3) + anyText(longFile && *uni(0, 3) == 0 ? longLen : 8, true);
                 else if (*uni(0, 2))
                     line += ws(1, 2);
             } else if (tail == 1)
